@@ -6,5 +6,5 @@ for id in $(python3 -c "import json;print(' '.join(c['property_id'] for c in jso
   s=$(date +%s)
   out=$(./check $id --tier $TIER 2>&1); rc=$?
   e=$(date +%s)
-  echo "$id rc=$rc $((e-s))s $(echo "$out" | grep -E 'VIOLATION|INCONCLUSIVE|KNOWN' | head -3 | tr '\n' ' ' | cut -c1-300)"
+  echo "$id rc=$rc $((e-s))s $(echo "$out" | grep -a -E 'VIOLATION|INCONCLUSIVE|KNOWN' | head -3 | tr '\n' ' ' | cut -c1-300)"
 done
